@@ -23,8 +23,11 @@ package actionlint
 //@     invariant [C02] forall k: *jobNode :: visited(k) ==> !(k.pos.Line < start.pos.Line || (k.pos.Line == start.pos.Line && k.pos.Col < start.pos.Col))
 
 // name lists embedded in messages are sorted before quoting
+// C10 / C09: the list handed over is often a shared one (a row of the built-in webhook table, the
+// configuration variables of the project): it is left exactly as it was
 //@ func sortedQuotes
 //@   body_calls [C02] sort.Strings iff true
+//@   ensures [C10 C09] forall j :: 0 <= j && j < len(ss) ==> ss[j] == old(ss[j])
 
 // C02: the list returned for a file is the list that was sorted by position (issorted(s): s was handed to
 // sort.Sort / sort.Stable), whatever filtering happened before
